@@ -1686,6 +1686,15 @@ func (ex *Exec) initGlobal(g *ssa.Global, c *Cell) {
 	if pkg == nil || skipGlobalInit[g.String()] {
 		return
 	}
+	if g.String() == "k8s.io/apimachinery/pkg/runtime.DefaultUnstructuredConverter" {
+		// the converter is reflection-driven; its methods are intercepted (luaboundary.go), the value only has to be
+		// a non-nil *unstructuredConverter
+		if tn := pkg.Type("unstructuredConverter"); tn != nil {
+			cell := ex.newCell(tn.Type())
+			c.val = IfaceV{t: types.NewPointer(tn.Type()), v: PtrV{cell}}
+		}
+		return
+	}
 	ex.eng.buildPkg(pkg)
 	initFn := pkg.Func("init")
 	if initFn == nil || initFn.Blocks == nil {
